@@ -3,6 +3,7 @@ CONSTANTS
   Depth = 2
   DeepIds = {1, 2, 3, 4}
   BaseIds = {1, 2, 3, 4, 5}
+  BigQuorums = {0, 1, 2, 3, 255, 256}
   QuorumLowerBound = TRUE
   EmitScenarios = TRUE
 INVARIANTS CodeSound RuleConsistent CodeComplete Emit
